@@ -317,7 +317,15 @@ func (i *interpreter) slice(x, lo, hi, max value) value {
 	conc := func(v value, what string) int64 {
 		if s, ok := v.(sym); ok {
 			// out-of-range side first (unsigned compare against Cap)
-			inb := i.tc.Cmp("bvule", s.t, i.tc.Const(s.t.w, uint64(Cap)))
+			st := s.t
+			if st.w < 64 {
+				if kindSigned(s.k) {
+					st = i.tc.SExt(64, st)
+				} else {
+					st = i.tc.ZExt(64, st)
+				}
+			}
+			inb := i.tc.Cmp("bvule", st, i.tc.Const(64, uint64(Cap)))
 			if !i.decide(inb, "slicebounds") {
 				panic(targetRuntimeError("slice bounds out of range [sym]"))
 			}
